@@ -178,6 +178,7 @@ def _run_x(prop, ob, build, a, tier, dig, log):
 
 def _run(prop, obligations, tier, scratch, log):
     results = []
+    os.environ["VERIF_TIER"] = tier  # spec builders choose their shapes by tier
     try:
         path, dig, dt = mir_dump(log)
         log("[mir] dump %s (%.0fs) digest=%s" % ("rebuilt" if dt else "cached", dt, dig[:12]))
@@ -209,6 +210,12 @@ def _run(prop, obligations, tier, scratch, log):
                                 "reason": "encoder error %s: %s" % (type(e).__name__, e)})
                 log("[%s] inconclusive %-34s %s: %s" % (ob["ob"], build.__name__, type(e).__name__, e))
                 continue
+            if ob.get("match"):
+                auts = [a for a in auts if re.search(ob["match"], a.name)]
+                if not auts:
+                    results.append({"ob": ob["ob"], "engine": "mir/smt", "query": build.__name__, "verdict": "inconclusive",
+                                    "reason": "no query of %s matches %r (vacuous selection)" % (ob["ob"], ob["match"])})
+                    continue
             for a in auts:
                 if hasattr(a, "check"):  # engine X (symbolic execution of MIR with data): xspecs.XCheck
                     results.append(_run_x(prop, ob, build, a, tier, dig, log))
